@@ -70,6 +70,9 @@ def make_dataset(cfg, d):
             for i in range(rng.randint(1, 6)):
                 ds.add_read("unm%d_g0" % i, None, 0, "", flag=4, seq="ACGTTGCAAC" * 5)
         paths = ds.write(d)
+        # a second alignment file (other reads): the input of the "earlier run with other inputs" of the history scenarios
+        paths["bam_alt"] = ds.write(d, bam_name="reads_alt.bam", reads=[r for i, r in enumerate(ds.reads) if i % 3 != 0],
+                                    write_ref=False)["bam"]
         with open(os.path.join(d, "groups.tsv"), "w") as f:
             for i, r in enumerate(ds.reads):
                 f.write("%s\tgrp%d\n" % (r["name"], i % 3))
@@ -87,10 +90,12 @@ def make_dataset(cfg, d):
     return {"paths": paths, "chrs": chrs, "mchrs": mchrs, "bchrs": list(names)}
 
 
-def cli_args(cfg, data, threads=1):
+def cli_args(cfg, data, threads=1, alt=False, saves=None, force=False):
+    """alt: the other alignment file; saves: prefix of kept save files (--read_assignments instead of --bam)"""
     p = data["paths"]
-    a = ["--threads", str(threads), "--bam", p["bam"], "--reference", p["ref"], "--data_type", "nanopore",
-         "-p", PREFIX, "--no_gzip"]
+    inp = ["--read_assignments", saves] if saves else ["--bam", p["bam_alt"] if alt else p["bam"]]
+    a = ["--threads", str(threads)] + inp + ["--reference", p["ref"], "--data_type", "nanopore",
+         "-p", PREFIX, "--no_gzip"] + (["--force"] if force else [])
     if cfg.get("genedb", True):
         a += ["--genedb", p["db"], "--complete_genedb"]
     if cfg.get("rg") == "inline":
@@ -118,23 +123,24 @@ def read_trace(state):
     return res
 
 
-def final_outputs(outdir):
+def final_outputs(outdir, prefix=PREFIX):
     """hashes of the final files under <out>/<prefix>/ modulo the command-line/version header lines"""
     res = {}
-    for fn, p in P.out_files(outdir, PREFIX).items():
+    for fn, p in P.out_files(outdir, prefix).items():
         with open(p, errors="replace") as f:
             res[fn] = hashlib.sha1(P.strip_cmdline(f.read()).encode()).hexdigest()
     return res
 
 
-def run_wrapped(workdir, cfg, data, crash=None, resume=False, threads=1, timeout=600):
-    """one (possibly killed) run under the wrapper in `workdir` (out/, home/, state*/).  Returns (rc, log, trace)"""
-    state = os.path.join(workdir, "state_resume" if resume else "state")
+def run_wrapped(workdir, cfg, data, crash=None, resume=False, threads=1, timeout=600, args=None, state="state"):
+    """one (possibly killed) run under the wrapper in `workdir` (out/, home/, state*/).  Returns (rc, log, trace).
+    `args`: the command line of a history scenario (default: cli_args of the configuration)"""
+    state = os.path.join(workdir, "state_resume" if resume else state)
     os.makedirs(state, exist_ok=True)
     env = {"ABLAB_ISOQUANT_VERIF": "1", "VERIF_C07_STATE": state, "VERIF_REPO": P.REPO}
     if crash:
         env["VERIF_C07_CRASH"] = "%d:%s" % crash
-    args = ["--resume"] if resume else cli_args(cfg, data, threads)
+    args = ["--resume"] if resume else (args if args is not None else cli_args(cfg, data, threads))
     rc, log = P.run_isoquant(os.path.join(workdir, "out"), args, home=os.path.join(workdir, "home"), env=env,
                              wrapper=WRAP, timeout=timeout)
     return rc, log, read_trace(state)
@@ -150,11 +156,16 @@ def snapshot(outdir):
     return res
 
 
-def crash_resume(workdir, cfg, data, k, phase, clean_outputs, threads=1):
-    """kill the run at mutation k (phase 'b'efore / 'a'fter), resume, judge.  Returns dict(verdict, detail, ...)"""
+def crash_resume(workdir, cfg, data, k, phase, clean_outputs, threads=1, prepare=None, args=None, prefix=PREFIX):
+    """kill the run at mutation k (phase 'b'efore / 'a'fter), resume, judge.  Returns dict(verdict, detail, ...).
+    prepare(workdir): puts the leftovers of the history scenario into workdir/out before the run starts;
+    args(workdir): its command line"""
     shutil.rmtree(workdir, ignore_errors=True)
     os.makedirs(workdir)
-    rc1, log1, tr1 = run_wrapped(workdir, cfg, data, crash=(k, phase), threads=threads)
+    if prepare:
+        prepare(workdir)
+    rc1, log1, tr1 = run_wrapped(workdir, cfg, data, crash=(k, phase), threads=threads,
+                                 args=args(workdir) if args else None)
     snap = snapshot(os.path.join(workdir, "out"))
     if rc1 == 0:
         return {"verdict": "NOCRASH", "detail": "run finished before mutation %d" % k, "trace": tr1, "snapshot": snap}
@@ -162,7 +173,7 @@ def crash_resume(workdir, cfg, data, k, phase, clean_outputs, threads=1):
     if rc2 != 0:
         err = [l for l in log2.split("\n") if "Error" in l or "error" in l][-2:]
         return {"verdict": "FAIL", "detail": "rc=%d %s" % (rc2, err), "trace": tr1, "resume_trace": tr2, "snapshot": snap}
-    got = final_outputs(os.path.join(workdir, "out"))
+    got = final_outputs(os.path.join(workdir, "out"), prefix)
     if got == clean_outputs:
         return {"verdict": "EQUAL", "detail": "", "trace": tr1, "resume_trace": tr2, "snapshot": snap}
     bad = sorted(f for f in set(got) | set(clean_outputs) if got.get(f) != clean_outputs.get(f))
